@@ -38,13 +38,37 @@ SHARED = Item(value=1000)
 from traits.constants import ComparisonMode
 
 
+class Box(HasTraits):
+    """its traits carrying `component` metadata are summed by Holder.boxsum; more of them are ADDED to instances"""
+    comp_a = Instance(Item, component=True)
+    other = Instance(Item)
+
+
+def mk_box(step):
+    b = Box(comp_a=Item(value=10 + step), other=Item(value=500))
+    b.add_trait("extra", Instance(Item, component=True))       # exists, with a value, before the box is hooked up
+    b.extra = Item(value=20 + step)
+    return b
+
+
+def box_sum(box):
+    if box is None:
+        return 0
+    return sum(v.value for v in box.trait_get(component=True).values() if v is not None)
+
+
 class HolderBase(HasTraits):
     """declares a property with a PLAIN getter; the subclass in use overrides the getter with a cached one"""
     base = Int(1)
     sub_p = Property(Int, observe="base")
+    sup_p = Property(Int, observe="base")       # the other way round: cached here, overridden by a plain getter that calls this one
 
     def _get_sub_p(self):
         return self.base * 5
+
+    @cached_property
+    def _get_sup_p(self):
+        return self.base * 7
 
 
 class Holder(HolderBase):
@@ -62,6 +86,15 @@ class Holder(HolderBase):
     scaled = Property(Int, observe="config.value")
     ident_dep = Any(1, comparison_mode=ComparisonMode.identity)     # every NEW object is a change, equal or not
     ident_p = Property(Str, observe="ident_dep")
+    box = Instance(Box)
+    boxsum = Property(Int, observe="box.+component.value")        # through a metadata filter one level down
+
+    def _get_sup_p(self):
+        return super()._get_sup_p() + 1
+
+    @cached_property
+    def _get_boxsum(self):
+        return box_sum(self.box)
 
     @cached_property
     def _get_ident_p(self):
@@ -100,13 +133,15 @@ class Holder(HolderBase):
 def recompute(h):
     return {"total": sum(k.value for k in h.kids), "echo": h.child.value if h.child is not None else -1,
             "size": sum(h.table.values()), "plain": h.base * 3, "weight": sum(p.value for p in h.parts.values()),
-            "scaled": h.config.value * 2, "ident_p": type(h.ident_dep).__name__, "sub_p": h.base * 5}
+            "scaled": h.config.value * 2, "ident_p": type(h.ident_dep).__name__, "sub_p": h.base * 5, "sup_p": h.base * 7 + 1,
+            "boxsum": box_sum(h.box)}
 
 
-PROPS = ("total", "echo", "size", "plain", "weight", "scaled", "ident_p", "sub_p")
+PROPS = ("total", "echo", "size", "plain", "weight", "scaled", "ident_p", "sub_p", "sup_p", "boxsum")
 OPS = ["read", "kid_value", "append", "insert_dup", "del", "slice_dup", "remove_first", "child=", "child_value", "table_set",
        "table_del", "base", "sort_reverse", "assign_dup_list", "pop", "part_same", "part_update_same", "part_value", "part_new",
-       "shared_value", "config=", "config_value", "del_kids", "del_child", "del_parts", "del_config", "ident=1.0", "ident=True"]
+       "shared_value", "config=", "config_value", "del_kids", "del_child", "del_parts", "del_config", "ident=1.0", "ident=True",
+       "part_repeated_key", "box=", "box_extra_value", "box_a_value", "box_add_later"]
 
 
 CORE_OPS = ["kid_value", "append", "insert_dup", "del", "slice_dup", "pop", "assign_dup_list", "part_same", "part_value", "del_kids"]
@@ -202,6 +237,24 @@ def harness_factory(variant, k, first=None, ops=None):
                         h.parts["p"].value += 3
                 elif op == "part_new":
                     h.parts["p"] = Item(value=30 + step)
+                elif op == "part_repeated_key":
+                    # one update() naming a new key twice: the LAST value is stored, and is the one to follow
+                    h.parts.update([("r%d" % step, Item(value=1)), ("r%d" % step, Item(value=2))])
+                    h.parts["r%d" % step].value += 5
+                elif op == "box=":
+                    h.box = mk_box(step)
+                elif op == "box_extra_value":
+                    if h.box is not None and "extra" in h.box.trait_names():
+                        h.box.extra.value += 1
+                elif op == "box_a_value":
+                    if h.box is not None:
+                        h.box.comp_a.value += 1
+                        h.box.other.value += 1           # not a component: irrelevant
+                elif op == "box_add_later":
+                    if h.box is not None and "late" not in h.box.trait_names():
+                        h.box.add_trait("late", Instance(Item, component=True))
+                        h.box.late = Item(value=40 + step)
+                        h.box.late.value += 1
                 elif op == "shared_value":
                     SHARED.value += 1                            # relevant while config is still the (never assigned) default
                 elif op == "config=":
